@@ -85,11 +85,11 @@ func VerifC17NodeUpdate() {
 	ctx := appState.NewContext(abciAPI.ContextDeliverTx)
 	st := NewMutableState(ctx.State())
 
-	n1 := &node.Node{ID: c17Key(1), EntityID: c17Key(100), Roles: node.RoleValidator}
+	n1 := &node.Node{Versioned: cbor.NewVersioned(node.LatestNodeDescriptorVersion), ID: c17Key(1), EntityID: c17Key(100), Roles: node.RoleValidator}
 	n1.Consensus.ID, n1.P2P.ID, n1.TLS.PubKey, n1.VRF.ID = c17Key(2), c17Key(3), c17Key(4), c17Key(5)
 	var others []*node.Node
 	if symx.Cfg("two", 1) == 1 {
-		n2 := &node.Node{ID: c17Key(11), EntityID: c17Key(100)}
+		n2 := &node.Node{Versioned: cbor.NewVersioned(node.LatestNodeDescriptorVersion), ID: c17Key(11), EntityID: c17Key(100), Roles: node.RoleValidator}
 		n2.Consensus.ID, n2.P2P.ID, n2.TLS.PubKey, n2.VRF.ID = c17Key(12), c17Key(13), c17Key(14), c17Key(15)
 		symx.Assert(st.SetNode(ctx, nil, n2, c17Signed(n2)) == nil, "SetNode failed")
 		others = append(others, n2)
